@@ -198,8 +198,10 @@ def run_property(modname: str, tier: str, seed: int, replay: str | None = None) 
     ftargets, fthms = [], {}
     for fname in getattr(mod, 'FOUNDATIONS', []):
         fmod = importlib.import_module(fname)
-        ftargets += list(getattr(fmod, 'LEAN_TARGETS', []))
-        fthms.update(getattr(fmod, 'THEOREMS', {}))
+        # a foundation may scope its obligations per property: `for_property(pid)` -> {'LEAN_TARGETS': [...], 'THEOREMS': {...}}
+        fspec = fmod.for_property(pid) if hasattr(fmod, 'for_property') else {}
+        ftargets += list(fspec.get('LEAN_TARGETS', getattr(fmod, 'LEAN_TARGETS', [])))
+        fthms.update(fspec.get('THEOREMS', getattr(fmod, 'THEOREMS', {})))
     lean = core.lean_obligations(pid, list(getattr(mod, 'LEAN_TARGETS', None) or []) + ftargets, fthms)
     if not lean.get('driver_ok', False):
         # without a driver nothing can be compared; report the broken obligation
